@@ -7,5 +7,6 @@ mkdir -p _work evidence
 coq/build.sh
 eval/build.sh
 [ -f harness/Cargo.lock ] || cp /repo/Cargo.lock harness/Cargo.lock
-(cd harness && RUSTFLAGS="--cfg arr_rs_verif -Awarnings" cargo build --offline --quiet)
+python3 gen/litgen.py >/dev/null
+(cd harness && RUSTFLAGS="--cfg arr_rs_verif -Awarnings" cargo build --offline --quiet --bin arr-rs-verif-harness --bin arr-rs-verif-lit)
 echo setup-ok
